@@ -201,6 +201,21 @@ Section Inv.
     eapply lookup_set_val_same. eapply lookup_set_val_same. eauto.
   Qed.
 
+  Lemma every_op_sel_Rdecl : forall s x m, Rdecl s (fst (every_op_sel sat s x m)).
+  Proof.
+    intros s x m. unfold every_op_sel. destruct (lookup s x) as [[t old]|]; [|apply Rdecl_refl].
+    apply lift_cases; cbn [fst]; try (intros; apply Rdecl_refl). intros nv _. apply Rty_Rdecl, assign_var_Rty.
+  Qed.
+  Lemma every_op_sel_established : forall s x m s',
+    every_op_sel sat s x m = (s', Ok tt) -> established x s s'.
+  Proof.
+    intros s x m s' H. unfold every_op_sel in H. destruct (lookup s x) as [[t old]|] eqn:E; [|discriminate].
+    destruct (m (force_seq old)) as [nv| | |]; cbn [lift] in H; try discriminate.
+    apply assign_var_ok in H as (t' & w0 & Hx & Ht & ->). rewrite E in Hx. injection Hx as <- <-.
+    intros T w Hl. rewrite E in Hl. injection Hl as <- <-. exists nv. split; [|exact Ht].
+    eapply lookup_set_val_same; eauto.
+  Qed.
+
   (* no statement changes a declared type, whatever its outcome *)
   Theorem stmt_keeps_types : forall st s, Rdecl s (fst (run_stmt sat inexact binop st s)).
   Proof.
@@ -231,6 +246,8 @@ Section Inv.
         try (intros; eapply Rdecl_trans; [apply set_val_Rdecl|apply set_val_Rdecl]).
       intros r _. eapply Rdecl_trans; [apply set_val_Rdecl|].
       eapply Rdecl_trans; [apply set_val_Rdecl|apply write_indexed_Rdecl].
+    - apply every_op_sel_Rdecl.
+    - apply every_op_sel_Rdecl.
   Qed.
 
   (* a statement that completes leaves every variable it wrote inside its declared type *)
@@ -286,6 +303,8 @@ Section Inv.
       apply write_indexed_established in H.
       intros T w Hl. rewrite E in Hl. injection Hl as <- <-. eapply H.
       eapply lookup_set_val_same. eapply lookup_set_val_same. eauto.
+    - destruct Hin as [<-|[]]. eapply every_op_sel_established; eauto.
+    - destruct Hin as [<-|[]]. eapply every_op_sel_established; eauto.
   Qed.
 
   (* the annotation invariant, over histories: whatever statements ran before and whether they
